@@ -226,6 +226,7 @@ func checkC08(c *Ctx) {
 	checkTimeoutWriters(c, "C08.3", owner)
 
 	checkRemovalUnconditional(c, "C08.7")
+	checkExpiryClock(c, "C08.8")
 
 	// ---- C08.6 an expired registration stops matching: lookups are computed from the live table on every call
 	r.Rule("C08.6", "connection lookups are computed from the live registration table on every call (no memoised set survives a removal)", 1)
